@@ -4,3 +4,5 @@ mod storage;
 
 pub(crate) use self::manager::{WalAppendInfo, WalManager};
 pub use self::manager::{WalError, WalIoOperation, WalReplayIoStep};
+#[cfg(feature = "verif-hooks")]
+pub(crate) use self::storage::SegmentStorage;
